@@ -24,6 +24,10 @@
 (*                       lowers a record / a rejected import changes none  *)
 (*  C11 ExportFaithful   exported values = highest signed values;          *)
 (*      SamePairsHold    original and re-imported instance decide alike    *)
+(*  C08 SigForRequest    every returned signature verifies for the entry  *)
+(*                       at its own position (key of the addressed account,*)
+(*                       signing root of exactly the submitted data); one  *)
+(*                       response entry per request                        *)
 (*  C09 AdvancingSigned  a well-formed, authorised duty above everything   *)
 (*                       signed before is signed (sequential, fault-free   *)
 (*                       runs only: the Invoke event says so)              *)
@@ -95,6 +99,7 @@ Release == /\ Is("Release")
               \/ /\ Ev.kind \notin {"att", "prop"}
                  /\ UNCHANGED <<relA, relP, hiS, hiT, hiP>>
            /\ bad' = bad \cup (IF RouteOK(Ev) THEN {} ELSE {<<"route", l>>})
+                         \cup (IF Ev.pos # Ev.i THEN {<<"misaligned", l>>} ELSE {})
                          \cup (IF Ev.kind = "att" /\ (Ev.t <= Get(hiT, Ev.k) \/ Ev.s < Get(hiS, Ev.k)) THEN {<<"floor", l>>} ELSE {})
                          \cup (IF Ev.kind = "prop" /\ Ev.slot <= Get(hiP, Ev.k) THEN {<<"floor", l>>} ELSE {})
                          \cup (IF <<Ev.r, 0>> \in fpos \/ <<Ev.r, Ev.i + 1>> \in fpos THEN {<<"failclosed", l>>} ELSE {})
@@ -118,10 +123,11 @@ Respond ==
            c09 == IF Ev.r \in DOMAIN req /\ Len(q.ents) = n
                     THEN {<<"advancing", l, i>> : i \in {j \in 1 .. n : MustSign(q, q.ents[j], sn) /\ Ev.res[j] # "SUCCEEDED"}}
                     ELSE {}
+           c08 == IF Ev.r \in DOMAIN req /\ Len(q.ents) # n THEN {<<"resplen", l>>} ELSE {}
            c06 == {<<"sigstate", l, i>> : i \in {j \in 1 .. n : (Ev.res[j] = "SUCCEEDED") # Ev.sig[j]}}
            \* any signature bytes at all (verifying or not) in a faulted request / at a faulted position
            c06f == {<<"failclosed", l, i>> : i \in {j \in 1 .. n : Ev.sig[j] /\ (<<Ev.r, 0>> \in fpos \/ <<Ev.r, j>> \in fpos)}}
-       IN bad' = bad \cup c09 \cup c06 \cup c06f
+       IN bad' = bad \cup c09 \cup c06 \cup c06f \cup c08
     /\ UNCHANGED <<relA, relP, floor, hiS, hiT, hiP, snap, req, produced, fpos>>
 
 \* C06: a dependency failed (or gave no definite answer) while request r / its entry i was processed
@@ -143,6 +149,10 @@ ExportEv == /\ Is("Export")
             /\ bad' = bad \cup {<<"durable", l, d.k>> : d \in {x \in produced : x.kind \in {"att", "prop"} /\ ~CoveredBy(Ev.db, x)}}
             /\ UNCHANGED <<relA, relP, doneP, floor, hiS, hiT, hiP, snap, req, produced, fpos>>
 
+\* C08: a signature that verifies for no entry of its request (wrong data, wrong key, wrong domain)
+BadSig == /\ Is("BadSig")
+          /\ bad' = bad \cup {<<"badsig", l>>}
+          /\ UNCHANGED <<relA, relP, doneP, floor, hiS, hiT, hiP, snap, req, produced, fpos>>
 \* C10 / C11: two projections of the database (or two vectors of decisions) that must be related
 GeRec(a, b) == a.s >= b.s /\ a.t >= b.t /\ a.ps >= b.ps
 DbPair == /\ Is("DbPair")
@@ -165,10 +175,10 @@ Exported == /\ Is("Exported")
             /\ bad' = IF Ev.s = Get(hiS, Ev.k) /\ Ev.t = Get(hiT, Ev.k) /\ Ev.slot = Get(hiP, Ev.k) THEN bad ELSE bad \cup {<<"exported", l>>}
             /\ UNCHANGED <<relA, relP, doneP, floor, hiS, hiT, hiP, snap, req, produced, fpos>>
 
-Other == /\ l <= Len(Trace) /\ Ev.ev \notin {"Begin", "Floor", "Invoke", "Release", "Respond", "Fault", "Produce", "Export", "DbPair", "SamePair", "Exported", "Rc"}
+Other == /\ l <= Len(Trace) /\ Ev.ev \notin {"Begin", "Floor", "Invoke", "Release", "Respond", "Fault", "Produce", "Export", "DbPair", "SamePair", "Exported", "Rc", "BadSig"}
          /\ l' = l + 1 /\ UNCHANGED <<relA, relP, doneP, floor, hiS, hiT, hiP, snap, req, produced, fpos, bad>>
 
-Next == Begin \/ FloorEv \/ Invoke \/ Release \/ Respond \/ FaultEv \/ Produce \/ ExportEv \/ DbPair \/ SamePair \/ Exported \/ RcEv \/ Other
+Next == Begin \/ FloorEv \/ Invoke \/ Release \/ Respond \/ FaultEv \/ Produce \/ ExportEv \/ DbPair \/ SamePair \/ Exported \/ RcEv \/ BadSig \/ Other
 Spec == Init /\ [][Next]_vars
 
 HighWater == TLCSet(1, IF l > TLCGet(1) THEN l ELSE TLCGet(1))
@@ -187,5 +197,6 @@ DbPairsHold == \A b \in bad : b[1] # "dbpair"
 SamePairsHold == \A b \in bad : b[1] # "samepair"
 ExportFaithful == \A b \in bad : b[1] # "exported"
 RejectOK == \A b \in bad : b[1] # "notrejected"
+SigForRequest == \A b \in bad : b[1] \notin {"badsig", "misaligned", "resplen"}
 AdvancingSigned == \A b \in bad : b[1] # "advancing"
 =============================================================================
